@@ -95,6 +95,104 @@ Section C.
     lra.
   Qed.
 
+
+  (* ---------------------------------------------------------------- *)
+  (* the domain: for threshold > 0 and N > 0 every logarithm of the value is
+     taken at a positive argument IF AND ONLY IF ns < N; in particular every
+     negative ns is inside the domain, however large the ratios are (events
+     with 1 + ns X_i at or below the threshold use the polynomial, which needs
+     no logarithm of event data) *)
+  Theorem value_domain opa N ns :
+    0 < opa -> 0 < N ->
+    (0 < 1 - ns / N <-> ns < N)
+    /\ (N <= ns -> 1 - ns / N <= 0)
+    /\ (ns < 0 -> 0 < 1 - ns / N)
+    /\ (forall x, opa - 1 < ns * x -> 0 < 1 + ns * x).
+  Proof.
+    intros Hopa HN.
+    assert (E : 1 - ns / N = (N - ns) / N) by (field; lra).
+    assert (Hi : 0 < / N) by (apply Rinv_0_lt_compat; exact HN).
+    split; [|split; [|split]].
+    - rewrite E. unfold Rdiv. split; intros H.
+      + destruct (Rlt_dec ns N) as [|Hn]; [assumption|exfalso].
+        assert ((N - ns) * / N <= 0).
+        { rewrite <- (Rmult_0_l (/ N)). apply Rmult_le_compat_r; lra. }
+        lra.
+      + apply Rmult_lt_0_compat; lra.
+    - intros H. rewrite E. unfold Rdiv.
+      rewrite <- (Rmult_0_l (/ N)). apply Rmult_le_compat_r; lra.
+    - intros H. rewrite E. unfold Rdiv. apply Rmult_lt_0_compat; lra.
+    - intros x H. lra.
+  Qed.
+
+  (* ---------------------------------------------------------------- *)
+  (* no selected events: only the pure-background term is left          *)
+  Theorem value_no_selected_events opa N ns :
+    evaluate_value Nm opa N ns [] = N * ln (1 - ns / N).
+  Proof.
+    rewrite value_is_manual. unfold logLambda_manual, Rsum. cbn [map fold_right length INR]. lra.
+  Qed.
+
+  (* an event of ratio exactly 1 (e.g. zero background in every factor with the
+     default constant 1) contributes nothing for any ns *)
+  Theorem value_unit_ratio_event opa N ns (Rs : list R) :
+    0 < opa < 1 -> N <> 0 ->
+    evaluate_value Nm opa N ns (1 :: Rs) = evaluate_value Nm opa N ns Rs - ln (1 - ns / N).
+  Proof.
+    intros Hopa HN. rewrite !value_is_manual. unfold logLambda_manual.
+    cbn [map length]. unfold Rsum. cbn [fold_right]. rewrite S_INR.
+    assert (HL : Lam (opa - 1) (ns * Xof N 1) = 0).
+    { unfold Lam, Xof. replace (ns * ((1 - 1) / N)) with 0 by (field; exact HN).
+      destruct (Rlt_dec (opa - 1) 0); [|lra]. replace (1 + 0) with 1 by lra. apply ln_1. }
+    rewrite HL. lra.
+  Qed.
+
+  (* ---------------------------------------------------------------- *)
+  (* zero background in a composition                                   *)
+  Lemma factor_ratio_zero_bkg i e (f : rfactor) :
+    nth e (snd f) 0 <= 0 -> factor_ratio i e f = fst (fst f).
+  Proof.
+    intros H. unfold factor_ratio, sob_spec.
+    destruct (Rlt_dec 0 (nth e (snd f) 0)); [lra|reflexivity].
+  Qed.
+
+  Lemma factor_ratio_pos_bkg i e (f : rfactor) :
+    0 < nth e (snd f) 0 -> factor_ratio i e f = nth i (snd (fst f)) 0 / nth e (snd f) 0.
+  Proof.
+    intros H. unfold factor_ratio, sob_spec.
+    destruct (Rlt_dec 0 (nth e (snd f) 0)); [reflexivity|lra].
+  Qed.
+
+  Lemma fold_Rmult_acc (l : list R) (a : R) : fold_left Rmult l a = a * fold_left Rmult l 1.
+  Proof.
+    revert a. induction l as [|x l IH]; intros a; cbn [fold_left]; [lra|].
+    rewrite (IH (a * x)), (IH (1 * x)). lra.
+  Qed.
+
+  (* the product over the factors, every factor with its own zero-background rule *)
+  Theorem row_ratio_product i e (f0 : rfactor) (fs : list rfactor) :
+    row_ratio i e f0 fs = factor_ratio i e f0 * fold_left Rmult (map (factor_ratio i e) fs) 1.
+  Proof. unfold row_ratio. apply fold_Rmult_acc. Qed.
+
+  Theorem row_ratio_zero_bkg_factor i e (f0 f1 : rfactor) :
+    nth e (snd f0) 0 <= 0 -> 0 < nth e (snd f1) 0 ->
+    row_ratio i e f0 [f1] = fst (fst f0) * (nth i (snd (fst f1)) 0 / nth e (snd f1) 0)
+    /\ row_ratio i e f1 [f0] = nth i (snd (fst f1)) 0 / nth e (snd f1) 0 * fst (fst f0).
+  Proof.
+    intros H0 H1. unfold row_ratio. cbn [map fold_left].
+    rewrite (factor_ratio_zero_bkg i e f0 H0), (factor_ratio_pos_bkg i e f1 H1). split; reflexivity.
+  Qed.
+
+  Theorem row_ratio_all_zero_bkg i e (f0 : rfactor) (fs : list rfactor) :
+    List.Forall (fun f : rfactor => nth e (snd f) 0 <= 0 /\ fst (fst f) = 1) (f0 :: fs) ->
+    row_ratio i e f0 fs = 1.
+  Proof.
+    intros H. inversion H as [|f l [Hb Hz] Hl]; subst.
+    rewrite row_ratio_product, (factor_ratio_zero_bkg i e f0 Hb), Hz.
+    clear H Hb Hz. induction Hl as [|f l [Hb Hz] _ IH]; cbn [map fold_left]; [lra|].
+    rewrite fold_Rmult_acc, (factor_ratio_zero_bkg i e f Hb), Hz. lra.
+  Qed.
+
   (* ---------------------------------------------------------------- *)
   (* lists                                                              *)
   Lemma nth_map_lt' {A B} (f : A -> B) (l : list A) (e : nat) (d : A) (d' : B) :
@@ -376,5 +474,36 @@ Section C.
     unfold multi_value, multi_manual. rewrite nsum_R. f_equal.
     apply map_ext. intros [fj [Nj Rj]]. cbn [fst snd].
     rewrite value_is_manual, KV_nsf. reflexivity.
+  Qed.
+
+  (* a dataset without selected events still contributes its pure-background
+     term N_j log(1 - ns f_j / N_j) ... *)
+  Theorem multi_value_empty_dataset opa ns fj Nj (f : list R) (ds : list (R * list R)) :
+    multi_value Nm opa ns (fj :: f) ((Nj, []) :: ds)
+    = Nj * ln (1 - ns * fj / Nj) + multi_value Nm opa ns f ds.
+  Proof.
+    rewrite !multi_value_spec. unfold multi_manual. cbn [combine map fst snd].
+    unfold Rsum at 1. cbn [fold_right]. fold (Rsum (map (fun p : R * (R * list R) =>
+      logLambda_manual (opa - 1) (fst (snd p)) (ns * fst p) (snd (snd p))) (combine f ds))).
+    unfold logLambda_manual at 1. unfold Rsum at 1. cbn [map fold_right length INR]. lra.
+  Qed.
+
+  (* ... so skipping such a dataset changes (raises) the value whenever it has
+     events and 0 < ns f_j < N_j *)
+  Theorem multi_value_skip_empty_dataset_refuted opa ns fj Nj (f : list R) (ds : list (R * list R)) :
+    0 < Nj -> 0 < ns * fj -> ns * fj < Nj ->
+    multi_value Nm opa ns (fj :: f) ((Nj, []) :: ds) < multi_value Nm opa ns f ds.
+  Proof.
+    intros HN Hp Hlt. rewrite multi_value_empty_dataset.
+    assert (Hq : 0 < ns * fj / Nj < 1).
+    { split.
+      - apply Rdiv_lt_0_compat; assumption.
+      - apply (Rmult_lt_reg_r Nj); [exact HN|].
+        unfold Rdiv. rewrite Rmult_assoc, Rinv_l by lra. lra. }
+    assert (Hl : ln (1 - ns * fj / Nj) < 0).
+    { rewrite <- ln_1. apply ln_increasing; lra. }
+    assert (Nj * ln (1 - ns * fj / Nj) < 0).
+    { rewrite <- (Rmult_0_r Nj). apply Rmult_lt_compat_l; assumption. }
+    lra.
   Qed.
 End C.
